@@ -84,7 +84,9 @@ def harnesses(tier):
     from props import C15
     k4 = C15.cow_harness(tier); k4.name = 'K4.add_function(published overload vectors are never written)'
     k4.note = 'get_function hands the shared_ptr<vector> of a name to its callers under the shared lock and they dispatch over it AFTER releasing it: the vector must be immutable once published (C15 U2 harness; same obligations)'
-    return [u, conversions_harness(), k4, add_function_harness(), Harness('K1.lock_discipline', FAM, roots, 'c13_lock.c', stubs=STUBS, shapes=shapes, opts=['--unwind', '4'], timeout=300, mem_gb=6, string_model=True,
+    from props import C15
+    k6 = C15.basic_state_harness(); k6.name = 'K6.get_state/set_state(copies under the owning locks)'
+    return [u, conversions_harness(), k4, add_function_harness(), k6, Harness('K1.lock_discipline', FAM, roots, 'c13_lock.c', stubs=STUBS, shapes=shapes, opts=['--unwind', '4'], timeout=300, mem_gb=6, string_model=True,
                     defines={'STRING_LITERALS_OPAQUE': 1}, inputs=['name', 'objd'], note='table operations are stubs asserting the lock state; outcome of find/insert is symbolic (found / not found, inserted / conflict)')]
 
 ASSUMPTIONS = ['pthread_rwlock_* are a lock-state model; std::map member functions on engine tables are stubs that assert the lock mode and return arbitrary outcomes',
